@@ -58,6 +58,13 @@ def gen(rng, tier):
                 for pair in ((a, b), (b, a)):
                     fr = gen_dm.make_frame(rng, factorial=True, cats=["f", "g", "h"], nlev={"f": 2, "g": rng.choice([2, 3]), "h": 2})
                     cases.append({"formula": "y ~ x + " + " + ".join(pair), "frame": fr, "na": "drop", "kind": "two-factors"})
+    # a categorical effect coded by a user-defined Encoding with FRACTIONAL contrasts (Helmert-like): the block holds
+    # the effect's values, whatever they are (decided by the oracle alone: the model knows the built-in codings)
+    for _ in range(100 if tier == "thorough" else 12):
+        fr = gen_dm.make_frame(rng, factorial=True, cats=["f", "g"], nlev={"f": 3, "g": rng.choice([2, 3])})
+        eff = rng.choice(["C(f, Helm)", "0 + C(f, Helm)", "C(f, helm)", "0 + C(f, helm)"])
+        cases.append({"formula": f"y ~ x + ({eff} | g)", "frame": fr, "na": "drop", "kind": "custom-encoding",
+                      "custom": True, "full": eff.startswith("0 +")})
     n = 20000 if tier == "thorough" else 300
     for _ in range(n):
         fr = gen_dm.make_frame(rng)
@@ -86,8 +93,60 @@ def _uniform_class(formula):
     return len(cat) >= 2 or any(":" in t for t in cat) or ("*" in eff and cat)
 
 
+def _custom_oracle(c):
+    import numpy as np
+    from props import C17 as _C17
+    ns = _C17._custom_ns()
+    try:
+        d = dm.build(dict(c, extra=ns))
+    except Exception as e:
+        return f"{c['formula']!r} with a user-defined Encoding raises {type(e).__name__}: {str(e)[:80]}"
+    df = dm.to_pandas(c["frame"])
+    flv = D.levels_of(df, "f")
+    glv = D.levels_of(df, "g")
+    H = ns["helm"]._h(len(flv))
+    code = np.column_stack([np.full(len(flv), 0.5), H]) if c["full"] else H
+    name = [n for n in d.group.terms if n.split("|")[0].startswith("C(f")][0]
+    Z = np.asarray(d.group[name], dtype=float)
+    p = code.shape[1]
+    if Z.shape != (len(df), len(glv) * p):
+        return f"{c['formula']!r}: block of {name} has shape {Z.shape}, expected {(len(df), len(glv) * p)}"
+    for i in range(len(df)):
+        want = np.zeros(len(glv) * p)
+        gi = glv.index(str(df["g"].iloc[i]))
+        want[gi * p:(gi + 1) * p] = code[flv.index(str(df["f"].iloc[i]))]
+        if not np.allclose(Z[i], want, rtol=1e-12, atol=1e-12):
+            return (f"{c['formula']!r}: row {i} of {name} is {Z[i].tolist()}, the effect's coding row in the slot of its "
+                    f"group gives {want.tolist()}")
+    return None
+
+
+def model_cmd(c):
+    if c.get("custom"):
+        c = dict(c, formula="y ~ x + (1 | g)")    # placeholder: the comparison is skipped
+    return D.model_cmd(c)
+
+
+def impl_obs(c):
+    if c.get("custom"):
+        from props import C17 as _C17
+        try:
+            return ["ok", dm.observe_design(dm.build(dict(c, extra=_C17._custom_ns())))]
+        except Exception as e:  # noqa
+            return ["err", type(e).__name__, str(e)[:160]]
+    return D.impl_obs(c)
+
+
+def compare(c, mo, obs):
+    if c.get("custom"):
+        return None
+    return D.compare(c, mo, obs)
+
+
 def oracle(c):
     import numpy as np
+    if c.get("custom"):
+        return _custom_oracle(c)
     try:
         d = dm.build(c)
     except Exception:
